@@ -446,6 +446,68 @@ def sanitizer_findings(stderr):
     return out
 
 
+VG_RE = re.compile(r"^==\d+== (Invalid (?:read|write) of size \d+|Conditional jump or move depends on uninitialised value\(s\)|"
+                   r"Use of uninitialised value of size \d+|Invalid free\(\) / delete / delete\[\] / realloc\(\)|"
+                   r"Syscall param .* uninitialised byte\(s\)|Mismatched free\(\).*|Source and destination overlap.*|"
+                   r"Process terminating with default action of signal \d+.*)")
+VG_FRAME_RE = re.compile(r"^==\d+==\s+(?:at|by) 0x[0-9A-F]+: (\S+) \((?:in )?([^):]+)")
+
+
+def valgrind_findings(stderr):
+    out = []
+    lines = stderr.split("\n")
+    for i, ln in enumerate(lines):
+        m = VG_RE.match(ln)
+        if not m:
+            continue
+        what = re.sub(r"\d+", "N", m.group(1)).replace(" ", "-")[:50]
+        core = None
+        top = None
+        j = i + 1
+        while j < len(lines) and j < i + 25:
+            fm = VG_FRAME_RE.match(lines[j])
+            if not fm:
+                if not lines[j].startswith("==") or lines[j].rstrip().endswith("=="):
+                    break
+                j += 1
+                continue
+            if top is None:
+                top = fm.group(1)
+            src = fm.group(2)
+            if re.search(r"(lltdBlock|lltdAutomata|lltdTlvOps|lltdWire|lltd_esp32)\.c", src):
+                core = fm.group(1)
+                break
+            j += 1
+        if what.startswith("Process-terminating") and out:
+            continue
+        out.append(("memcheck:%s:%s%s" % (what, "" if core else "noncore:", core or top or "?"), "\n".join(lines[i:i + 12])))
+    return out
+
+
+def guard_fault_key(stderr, binary):
+    """symbolise the VH-FAULT backtrace left by the plain build's signal handler"""
+    if "VH-FAULT backtrace:" not in stderr:
+        return None
+    addrs = re.findall(r"\(\+(0x[0-9a-f]+)\)", stderr.split("VH-FAULT backtrace:", 1)[1])
+    if not addrs:
+        return "guard:fault:?"
+    try:
+        p = subprocess.run(["addr2line", "-f", "-i", "-e", binary] + addrs, stdout=subprocess.PIPE, text=True, timeout=60)
+    except Exception:
+        return "guard:fault:?"
+    ls = p.stdout.split("\n")
+    inner = outer = None
+    for k in range(0, len(ls) - 1, 2):
+        fn, loc = ls[k], ls[k + 1]
+        if CORE_PATH_RE.search(loc):
+            if inner is None:
+                inner = fn
+            outer = fn
+    if inner is None:
+        return "guard:fault:noncore"
+    return "guard:fault:%s" % (inner if inner == outer else "%s<%s" % (inner, outer))
+
+
 def crash_key(scn):
     """Key for a child that died without a sanitizer report (signal, watchdog)."""
     if scn.status == "sig":
